@@ -31,7 +31,7 @@ class ModelMixin:
                      "ite", "unit", "is_none", "is_str", "is_int", "is_ref", "last", "ref", "allocated",
                      "held", "is_list_of_pos_int", "cls_id", "is_float", "sval", "ival", "dget", "singleton", "str", "is_bool", "is_dict", "is_list",
                      "setof", "contains", "prefix_of", "is_bytes", "is_cls", "map_int2str", "joinstr", "split", "lookup_global",
-                     "funcval", "seqmap", "extends", "only_changed", "UNSET", "unchanged", "unchanged_old", "cls_module_name", "all_reports", "empty_log", "count_failed", "suffix_of", "proj_a", "all_b", "all_tag"}
+                     "funcval", "seqmap", "extends", "only_changed", "UNSET", "unchanged", "unchanged_old", "cls_module_name", "all_reports", "empty_log", "count_failed", "suffix_of", "proj_a", "all_b", "all_tag", "card", "outside"}
 
     # ------------------------------------------------------------------ spec-mode calls
     def spec_call(self, e, st):
@@ -165,8 +165,7 @@ class ModelMixin:
         if name == "update":
             d1, m1 = self.as_sdict(st, self.spec_builtin(st, "dict_of", [a[0]], e))
             d2, m2 = self.as_sdict(st, self.spec_builtin(st, "dict_of", [a[1]], e))
-            k = z3.Const("k!upd", Val)
-            return SV("sdict", (z3.SetUnion(d1, d2), z3.Lambda([k], z3.If(z3.Select(d2, k), z3.Select(m2, k), z3.Select(m1, k)))))
+            return SV("sdict", (z3.SetUnion(d1, d2), self.ite_map(d2, m2, m1)))
         if name == "without":
             d1, m1 = self.as_sdict(st, self.spec_builtin(st, "dict_of", [a[0]], e))
             for kk in a[1:]:
@@ -335,6 +334,14 @@ class ModelMixin:
                                         patterns=[z3.Select(cur, r)]))
         if name == "all_reports":
             return SV("bool", ALL_REPORTS(a[0].t))
+        if name == "outside":
+            # outside(d, keys): d restricted to the keys NOT in `keys` (a set or the key set of a dict)
+            d1, m1 = self.as_sdict(st, self.spec_builtin(st, "dict_of", [a[0]], e))
+            ks = self.as_sset(st, a[1]) if a[1].k in ("sset", "cset") else self.as_sdict(st, self.spec_builtin(st, "dict_of", [a[1]], e))[0]
+            return SV("sdict", (z3.SetDifference(d1, ks), self.ite_map(ks, z3.K(Val, NoneV), m1)))
+        if name == "card":
+            d1, m1 = self.as_sdict(st, self.spec_builtin(st, "dict_of", [a[0]], e))
+            return SV("int", self.set_card(d1))
         if name == "proj_a":
             return SV("seq", PROJ_A(a[0].t))
         if name == "all_b":
@@ -504,10 +511,12 @@ class ModelMixin:
             return [Res(st, SV("none"))]
         raise Unsupported("builtin " + name)
 
+    def set_card(self, dom):
+        return z3.Function("set_card", SetV, I)(dom)
+
     def dict_size(self, st, d):
-        f = z3.Function("set_card", SetV, I)
-        self.assumptions.add("len(dict) is the cardinality of its key set (uninterpreted set_card; card(insert) axioms only where used)")
-        return f(self.dom_of(st, d))
+        self.assumptions.add("len(dict) is the cardinality of its key set (uninterpreted set_card; a duplicate-free enumeration of the keys has that length)")
+        return self.set_card(self.dom_of(st, d))
 
     def isinstance_(self, st, v, cl):
         classes = cl.x if cl.k == "tuple" else [cl]
@@ -716,9 +725,8 @@ class ModelMixin:
                     d2, m2 = self.dom_of(st, starkw), self.map_of(st, starkw)
                 else:
                     d2, m2 = z3.K(Val, z3.BoolVal(False)), z3.K(Val, NoneV)
-                kq = z3.Const("k!upd", Val)
                 nd = z3.SetUnion(dom, d2)
-                nm = z3.Lambda([kq], z3.If(z3.Select(d2, kq), z3.Select(m2, kq), z3.Select(mp, kq)))
+                nm = self.ite_map(d2, m2, mp)
                 for name2, v in kw.items():
                     kb = Val.StrV(z3.StringVal(name2))
                     nd = z3.Store(nd, kb, z3.BoolVal(True))
